@@ -235,7 +235,11 @@ func baseBody(p baseProgram) func() {
 			regInFlight = map[string]int{}
 		)
 		l = basestreamleecher.New(tick, basestreamleecher.Callbacks{
+			// every application callback is a scheduling point: callbacks are where a real application spends time,
+			// so a check-then-act sequence of callbacks that the leecher does not protect by its lock must be
+			// interruptible between the callbacks
 			SelectSessionPeerCandidates: func() []string {
+				sched.Point("callback SelectSessionPeerCandidates")
 				var c []string
 				for peer := range l.Peers {
 					c = append(c, peer)
@@ -245,6 +249,7 @@ func baseBody(p baseProgram) func() {
 			},
 			ShouldTerminateSession: func() bool { return shouldEnd },
 			StartSession: func(candidates []string) {
+				sched.Point("callback StartSession")
 				if len(candidates) == 0 {
 					sched.Fail("start-without-candidates: StartSession called with no candidates")
 				}
@@ -262,8 +267,15 @@ func baseBody(p baseProgram) func() {
 				session = pick
 				lastPeer = pick
 			},
-			TerminateSession:   func() { sched.Logf("TerminateSession(%s)", session); session = "" },
-			OngoingSession:     func() bool { return session != "" },
+			TerminateSession: func() {
+				sched.Point("callback TerminateSession")
+				sched.Logf("TerminateSession(%s)", session)
+				session = ""
+			},
+			OngoingSession: func() bool {
+				sched.Point("callback OngoingSession")
+				return session != ""
+			},
 			OngoingSessionPeer: func() string {
 				if p.StickyPeer {
 					return lastPeer
